@@ -140,6 +140,17 @@ CLAIMED = {
         note="Trusted: Coq kernel (no axioms); the numerical kernels (OptionsFactory.create, regrid+refine, derive) are Section variables whose functional dependence is the contract "
              "monitored by the fresh-build comparison at 5e-7 m; translate/regrid.py.",
         technique="Coq proof by induction over operation histories on a hand model selected by regenerated source facts + history correspondence with fresh builds", design="6/C15"),
+    "C16": dict(
+        text="Coq theorems over R / Z about REGENERATED definitions: the three option blocks of TokamakEquilibrium.__init__ are exactly the direct transformations psi -> s psi/k, "
+             "fpol -> t fpol (any combination) and the gfile checks compare like with like; at fixed positions Brxy, Bzxy, the sampled dot product scale with psi, |Bpxy| with |c|, bpsign and "
+             "the accepted sign of Bpxy reverse exactly for c = -1 (same raise cases); all 26 metric components of both calcMetric branches keep their magnitude under current reversal and "
+             "under Bt reversal (parity lemma per component); the sign decision is invariant under reflection with y reversed; the connection tables of upper single / double null are the "
+             "reflected tables of the lower ones, the connected double null is self-mirror (vm_compute on the generated finite tables); single-null branch-cut integers reflect.  Oracles on "
+             "pairs of complete grids: mirror pairs region by region (R, -Z, bpsign, 30 field magnitudes at 1e-8 m / 2e-6), reversal pairs (every output field up to the expected sign), "
+             "options vs directly transformed inputs (identical).",
+        note="Trusted: Coq kernel + Reals axioms; translators; that contour following is deterministic in its inputs is what the pair comparison monitors.  The radial grid line through "
+             "an X-point is compared at 5e-4 m (each region starts slightly off the X-point and the join takes the upper region's values: documented in fillRZ).",
+        technique="Coq proofs on translated formulas and generated finite tables + pairwise grid oracle", design="6/C16"),
 }
 
 PENDING = ["C01", "C03", "C04", "C05", "C06", "C07", "C08", "C09", "C10", "C11", "C12", "C13", "C14", "C15", "C16", "C17", "C18", "C19", "C20"]
